@@ -14,5 +14,7 @@ CONSTANTS
     Ticks = FALSE
     Fatal = TRUE
     FlushOnFatal = FALSE
+    ZoneBack = FALSE
+    ZoneTies = FALSE
 INVARIANT FatalDurableInv
 CHECK_DEADLOCK FALSE
